@@ -589,6 +589,18 @@ class C05(Profile):
                     o = world.origin.get(nm, (None, None, None))
                     world.origin[nm] = (o[0], "time_match", None)
             return r
+        if k == "derive" and op["f"].startswith("load:"):
+            # an object born from the file an earlier save_signal call wrote: two objects loaded from one file are two
+            # owners of two arrays (c05u-3: a loader that memoises the loaded object and hands out shallow copies)
+            import os
+            how = op["f"].split(":")[1:]
+            path = os.path.join(world.tmpdir or "/nonexistent", "x.txt")
+            if how[0] == "load_signal":
+                obj = eqsig.load_signal(path, astype=how[1])
+            else:
+                obj = getattr(eqsig, how[0])(path, **{a: b for a, b in op.get("kwargs", {}).items()})
+            self._register_obj(world, op["p"], obj, ("object", op["f"], None))
+            return None
         if k == "derive":
             args = [self._res(world, a) for a in op.get("args", [])]
             kw = {a: self._res(world, b) for a, b in op.get("kwargs", {}).items()}
@@ -1468,6 +1480,18 @@ class Gen(object):
         xs = READS if acc else ["fa_spectrum", "smooth_fa_spectrum", "time", "npts"]
         return {"op": "read", "p": p, "x": rng.choice(xs)}
 
+    def g_load(self, world):
+        import os
+        rng = self.rng
+        if not (world.tmpdir and os.path.exists(os.path.join(world.tmpdir, "x.txt"))) or len(world.objs) > 7:
+            return None
+        how = rng.choice(["load_asig", "load_asig", "load_sig", "load_signal:acc_sig", "load_signal:signal"])
+        op = {"op": "derive", "p": "S%d" % self.no, "f": "load:" + how, "args": [], "kwargs": {}}
+        if how in ("load_asig", "load_sig") and rng.random() < 0.3:
+            op["kwargs"] = {"m": rng.choice([1.0, 2.0, 1])}
+        self.no += 1
+        return op
+
     def g_derive(self, world):
         rng = self.rng
         objs = sorted(world.objs)
@@ -1475,6 +1499,10 @@ class Gen(object):
             return None
         f = rng.choice(["fns.interp_to_approx_dt", "fns.resample_to_approx_dt", "multiple.combine_at_angle", "fns.fas2signal"])
         name = "S%d" % self.no
+        if rng.random() < 0.6:
+            op = self.g_load(world)
+            if op is not None:
+                return op
         p = rng.choice(objs)
         self.cur_obj = p
         self.cur_dt = float(world.objs[p].dt)
@@ -1519,6 +1547,12 @@ class Gen(object):
                     a = rng.randint(0, n // 2)
                     op["slice"] = [a, rng.randint(a + 2, n)]
                 return op
+        if world.objs and len(world.objs) < 6 and rng.random() < 0.02:
+            # a signal goes to a file and is loaded from it twice; then the loaded objects are corrected in place
+            p = rng.choice(sorted(world.objs))
+            self.queue += [lambda w: self.g_load(w), lambda w: self.g_load(w), lambda w: self.g_mut(w, inplace=True),
+                           lambda w: self.g_mut(w, inplace=True)]
+            return {"op": "call", "f": "loader.save_signal", "args": [{"obj": p}], "kwargs": {}}
         if r < 0.10:
             return self.g_buf() if self.nb < 6 else self.g_write(world)
         if r < 0.30:
